@@ -372,9 +372,13 @@ HasWitness(d, p, D) ==
 (* Part 5.  Canonical auxiliary values (C07): every auxiliary variable set to *)
 (* the mathematical value of the expression that defines it.  Only defined    *)
 (* when every step is determined by a functional constraint (the "native"     *)
-(* acceptance configurations); the values need not respect the bounds.        *)
+(* acceptance configurations) or is a fixed variable nothing defines; the      *)
+(* values need not respect the bounds.                                        *)
 StepVal(d, st, x, D) ==
-  IF st.det = 0 \/ st.dk # "func" THEN {}
+  \* a fixed variable that no constraint defines stands for a constant (the converter creates such
+  \* variables for expressions it folded): its value is its only feasible value
+  IF st.det = 0 /\ d.vars[st.v].lb = d.vars[st.v].ub THEN {d.vars[st.v].lb}
+  ELSE IF st.det = 0 \/ st.dk # "func" THEN {}
   ELSE LET c == d.cons[st.det]
        IN IF c.k \in {"linfunc", "quadfunc"}
             THEN LET sum == PAdd(BodyVal(c.expr, x), RhsU(c.expr.c, D))
